@@ -255,10 +255,21 @@ def run(ck):
         arm = cp.blocks[bid].succs[k_]
         if arm is None:
             continue
-        early = [x for x in cfg.exits_without(cp, consumes, start_block=arm) if x.kind == "return" and x.event is not None and x.event.get("const") == FINAL]
-        fin = [e for e in cfg.events_from_block(cp, arm) if e["k"] == "return" and e.get("const") == FINAL]
+        # `return Final` written in Chunk::parse itself or in a helper it was split into (whose returns are `iret` events of the
+        # flattened function)
+        is_final = lambda e: e["k"] in ("return", "iret") and e.get("const") == FINAL
+        early = []
+
+        def st3(st, ev):
+            if consumes(ev):
+                return 1
+            if is_final(ev) and st == 0:
+                early.append(ev)
+            return st
+        cfg.run_automaton(cp, 0, st3, start=arm)
+        fin = [e for e in cfg.events_from_block(cp, arm) if is_final(e)]
         nfin += len(fin)
-        ck.ob("C04-R3", "Chunk::parse/Final-after-closing-CRLF", bool(fin) and not early, (early[0].event.loc if early else (fin[0].loc if fin else cp.loc)), cp,
+        ck.ob("C04-R3", "Chunk::parse/Final-after-closing-CRLF", bool(fin) and not early, (early[0].loc if early else (fin[0].loc if fin else cp.loc)), cp,
               "every path from `size == 0` to `return Final` passes cursor.advance" if fin and not early else
-              "Final can be returned at line %s without the closing CRLF having been consumed" % (early[0].event.get("l") if early else "?"))
+              "Final can be returned at line %s without the closing CRLF having been consumed" % (early[0].get("l") if early else "?"))
     ck.require(nfin >= 1, "`return Final` not found after the `size == 0` test in Chunk::parse")
